@@ -55,6 +55,13 @@ fn collect_names(xot: &Xot, node: xot::Node, exp: &ANode, out: &mut Vec<(QName, 
 
 pub struct C08;
 
+/// the pool of plan hist-parse: also spellings that differ from a built-in only by case
+const STRS_WIDE: &[&str] = &[
+    "", "a", "b", "A", "xml", "space", "id", "xmlns", "é", "urn:a", "urn:b", "n0", "p",
+    "http://www.w3.org/XML/1998/namespace", "http://www.w3.org/1999/xhtml", "br", "BR", "a b",
+    "\u{1F600}", "XML", "Xml", "xMl", "XMLNS", "Space", "ID", "HTTP://WWW.W3.ORG/XML/1998/NAMESPACE",
+];
+
 const STRS: &[&str] = &[
     "", "a", "b", "A", "xml", "space", "id", "xmlns", "é", "urn:a", "urn:b", "n0", "p",
     "http://www.w3.org/XML/1998/namespace", "http://www.w3.org/1999/xhtml", "br", "BR", "a b",
@@ -419,7 +426,26 @@ impl Property for C08 {
     }
 
     fn check(&self, src: &mut Src, ctx: &mut Ctx) -> Verdict {
-        let mut xot = Xot::new();
+        // plan hist-parse also starts from the other ways to get an empty store
+        let mut xot = if ctx.knobs.variant == 2 {
+            match src.choice(3) {
+                0 => Xot::new(),
+                1 => {
+                    ctx.label("start_from_default");
+                    Xot::default()
+                }
+                _ => {
+                    ctx.label("start_from_mem_take");
+                    let mut a = Xot::new();
+                    a.add_name("left-behind");
+                    let b = std::mem::take(&mut a);
+                    let _ = b;
+                    a
+                }
+            }
+        } else {
+            Xot::new()
+        };
         let mut m = Model {
             ns: HashMap::new(),
             pf: HashMap::new(),
@@ -463,8 +489,9 @@ impl Property for C08 {
             let r: Result<(), String> = (|| {
                 match op {
                     0 => {
-                        let l = *src.pick(STRS);
-                        let n = if src.bool() { "" } else { *src.pick(STRS) };
+                        let pool = if parse_centred { STRS_WIDE } else { STRS };
+                        let l = *src.pick(pool);
+                        let n = if src.bool() { "" } else { *src.pick(pool) };
                         if m.nm.contains_key(&(l.to_string(), n.to_string())) {
                             repeat = true;
                         }
@@ -473,7 +500,7 @@ impl Property for C08 {
                         reg_name(&mut xot, &mut m, l, n)?;
                     }
                     1 => {
-                        let s = *src.pick(STRS);
+                        let s = *src.pick(if parse_centred { STRS_WIDE } else { STRS });
                         if m.ns.contains_key(s) {
                             repeat = true;
                         }
@@ -482,7 +509,7 @@ impl Property for C08 {
                         reg_ns(&mut xot, &mut m, s)?;
                     }
                     2 => {
-                        let s = *src.pick(STRS);
+                        let s = *src.pick(if parse_centred { STRS_WIDE } else { STRS });
                         if m.pf.contains_key(s) {
                             repeat = true;
                         }
